@@ -147,8 +147,8 @@ def evaluate(env, c):
     if any(len(l) > 1022 for l in p["ini"].split(b"\n")):
         return
     path = p["path"]
-    ops = [drv.op("x", out + "/log", out + "/log-x-1", out + "/fd1.file", out + "/fd2.file")] + \
-          ([drv.op("g", c["bigpid"])] if c.get("bigpid") else []) + [drv.op("f"), drv.op("T")]
+    ops = [drv.op("x", out + "/log", out + "/log-x-1", out + "/fd1.file", out + "/fd2.file"), drv.op("f"), drv.op("T")] + \
+          ([drv.op("g", c["bigpid"])] if c.get("bigpid") else [])
     for fd in (1, 2):
         if c["stdio"] == "file":
             ops.append(drv.op("S", fd, "file", out + "/fd%d.file" % fd))
